@@ -27,8 +27,8 @@ func init() {
 				n = 4000
 			}
 			return fw.Meta{N: n, Level: "fault_enumeration", Chunk: 4, CaseTimeoutS: 300, MinNT: 40,
-				Rule:        "one case = one generated file (1..12 records incl. nil/empty/0x00-leading/marker-laden payloads, 4 compression types, write buffers {8,64,4096}); on it: (a) every truncation length 0..size -> sequential reader must return exactly the records wholly inside the prefix then EOF/err, a second sequential program mixing SkipNext in must never READ anything but the written record of its position (every 4th case through the direct-I/O reader factory on a real file system)or, ReadNextAt(off_i) must return record i or an error; (b) every record-header byte (located by the harness's independent parser) x all 255 other values when the file has <= 6000 such variants, else bit flips + {00,ff,91,8d,4c,+1,-1} -> reading that record must fail in both readers, earlier records unaffected; (c) every file-header byte x 255 values that makes version outside 1..4 or compression > 3 -> Open must fail in both readers. evaluations = damaged copies; non-trivial = file with >=2 records whose damaged copies were all judged; distinct by file content hash",
-				MinObs:      map[string]int64{"truncations_checked": 5000, "header_byte_alterations_checked": 20000, "file_header_alterations_rejected": 10000, "crc_last_byte_continuation_with_zero_payload_byte": 1},
+				Rule:        "one case = one generated file (1..12 records incl. nil/empty/0x00-leading/marker-laden payloads, 4 compression types, write buffers {8,64,4096}); on it: (a) every truncation length 0..size -> sequential reader must return exactly the records wholly inside the prefix then EOF/err, a second sequential program mixing SkipNext in must never READ anything but the written record of its position (every 4th case through the direct-I/O reader factory on a real file system)or, ReadNextAt(off_i) must return record i or an error; (b) every record-header byte (located by the harness's independent parser) x all 255 other values when the file has <= 6000 such variants, else bit flips + {00,ff,91,8d,4c,+1,-1} -> reading that record must fail in both readers, earlier records unaffected; (c) every file-header byte x 255 values that makes version outside 1..4 or compression > 3 -> Open must fail in both readers. evaluations = damaged copies; non-trivial = file with >=2 records whose damaged copies were all judged; distinct by file content hash Every other sequential reader is closed twice before the random-access pass.",
+				MinObs:      map[string]int64{"sequential_readers_closed_twice_before_the_random_access_pass": 1000, "truncations_checked": 5000, "header_byte_alterations_checked": 20000, "file_header_alterations_rejected": 10000, "crc_last_byte_continuation_with_zero_payload_byte": 1},
 				Assumptions: []string{"a damaged copy may be served only if every returned record equals the written one", "legacy versions 1..3 written into the file header are valid codes and not required to be rejected"},
 			}
 		},
